@@ -82,6 +82,14 @@ func (w *world) cleanupAttempt(a *linkpair.Attempt) {
 	}
 }
 
+func reverse(s string) string {
+	b := []byte(s)
+	for i, j := 0, len(b)-1; i < j; i, j = i+1, j-1 {
+		b[i], b[j] = b[j], b[i]
+	}
+	return string(b)
+}
+
 func (w *world) linked(i int) bool {
 	return w.S[i].Node.Peering.GetLink(w.S[1-i].Node.IP) != nil
 }
@@ -99,7 +107,7 @@ func run(e *core.Env) {
 	// Near misses included: names that differ in case, in surrounding blanks, in a trailing
 	// dot or in one letter are different universes.
 	universes := []string{"", "alpha", "beta", "Alpha", "ALPHA", "alpha ", " alpha", "alpha.", "alph", "alpha\x00", "betá"}
-	secrets := []string{"", "s3cret", "other"}
+	secrets := []string{"", "s3cret", "other", "t3rces"} // (two of them have the same length)
 	var uni, sec [2]string
 	switch tp.Pick(5, 2, 2) {
 	case 0:
@@ -116,10 +124,10 @@ func run(e *core.Env) {
 	switch tp.Pick(4, 2, 3) {
 	case 0:
 	case 1:
-		sec[0] = secrets[1+tp.Intn(2)]
+		sec[0] = secrets[1+tp.Intn(3)]
 		sec[1] = sec[0]
 	default:
-		sec[0], sec[1] = secrets[tp.Intn(3)], secrets[tp.Intn(3)]
+		sec[0], sec[1] = secrets[tp.Intn(4)], secrets[tp.Intn(4)]
 	}
 	for i := 0; i < 2; i++ {
 		st := node.BaseStore(ids[i])
@@ -563,7 +571,7 @@ func run(e *core.Env) {
 		V := w.S[v]
 		ost := node.BaseStore(outID)
 		ost.Router.Universe = uni[v]
-		ost.Router.UniverseSecret = []string{"", "", "not-the-secret"}[tp.Intn(3)]
+		ost.Router.UniverseSecret = []string{"", "", "not-the-secret", reverse(sec[v])}[tp.Intn(4)] // (the last: wrong, but of the right length)
 		O := linkpair.NewStack(e, fmt.Sprintf("out%d", k), outID, ost, false)
 		victimDials := tp.Chance(1, 2)
 		copyChallenge := tp.Chance(3, 4)
